@@ -288,6 +288,7 @@ def run(chk):
                        '(each reachable state = one chunked run); every state is replayed into ThreePoint/FourPoint/FKM detectors. '
                        'Non-trivial = >= 2 chunks and >= 1 closed cycle; distinct by (signal, partition[, detector]). '
                        'Recorded traces: seeded random integer signals (plateaus, ties) with random partitions, validated by TLC.')
+    chk.cov['rule'] += ' Chunks are handed over in ONE re-used read buffer that is overwritten after each call; for >= 3 chunks chunk_local_index is queried after every chunk.'
     chk.cov['exhaustive'] = True
     chk.assumptions += ['integer-valued samples (exact in float64); real-valued behaviour is covered only through order/tie structure',
                         'TLC, SANY, CommunityModules Json; the TLA+ value parser and projection in harness/vh',
